@@ -3,9 +3,10 @@
 (* `mos format` for kind "cmd") is judged here.                                                                 *)
 (*                                                                                                              *)
 (* record kind "fmt":  [id, kind, hasModel, file (Format.tla shape; empty when hasModel = FALSE), opts, ok,      *)
-(*    panic, reparse_ok, asm, asm_same, ast, ast_fmt, comments, comments_fmt, lex, lex_fmt, dropgap, dropimp (texts),     *)
+(*    panic, panicWidth, reparse_ok, asm, asm_same, ast, ast_fmt, comments, comments_fmt, lex, lex_fmt, dropgap, dropimp (texts),     *)
 (*    fmt, fmt2, lines, lines2 (Seq([n, s, q, lc, lo, cs, el, cont]))]                                                              *)
-(* record kind "cmd":  [id, kind, parseError, files: Seq([name, before, after, expect])]   (FormatCmd.tla)        *)
+(* record kind "cmd":  [id, kind, outcome, parseError, cfgBeyond, panicWidth, cwd, decoy,                          *)
+(*    files: Seq([name, before, after, expect]), others: Seq([name, before, after])]      (FormatCmd.tla)         *)
 (*                                                                                                              *)
 (* tier 1 (verdict): the property on the observation alone.  A failure is a "deviation" only when the narrow     *)
 (* witness of a named, recorded defect matches, otherwise a "violation".                                         *)
@@ -35,7 +36,10 @@ Range(s) == {s[i] : i \in 1..Len(s)}
 SameLineWitness(r) == "SameLineStatementsGlued" \in Devs /\ r.hasModel /\ BodyHasSameLinePair(r.file.body)
 C12Rows(r) ==
   IF ~r.ok THEN <<>>                                                   \* programs with parse errors are outside C12
-  ELSE IF r.panic # "" THEN <<V(r.id, "violation", "", "formatter or parser panicked: " \o r.panic)>>
+  ELSE IF r.panic # "" THEN
+       IF "FormatWidthPanics" \in Devs /\ r.panicWidth /\ (r.opts.lm + r.opts.cm > MaxWidth \/ r.opts.indent * 16 > MaxWidth)
+       THEN <<V(r.id, "deviation", "FormatWidthPanics", "format() panics on a width beyond 65535: " \o r.panic)>>
+       ELSE <<V(r.id, "violation", "", "formatter or parser panicked: " \o r.panic)>>
   ELSE
    LET lost == Lost(r.comments, r.comments_fmt)
        meaning ==
@@ -118,9 +122,23 @@ CmdRows(r) ==
   LET before == [i \in 1..Len(r.files) |-> r.files[i].before]
       after == [i \in 1..Len(r.files) |-> r.files[i].after]
       expect == [i \in 1..Len(r.files) |-> r.files[i].expect]
-  IN IF CmdPost(r.parseError, before, expect, after) THEN <<>>
-     ELSE <<V(r.id, "violation", "", IF r.parseError THEN "mos format changed a file although a file of the project has a parse error"
-                                                    ELSE "mos format did not write exactly format(file) into every file of the project")>>
+      ob == [i \in 1..Len(r.others) |-> r.others[i].before]
+      oa == [i \in 1..Len(r.others) |-> r.others[i].after]
+  IN IF CmdPost(r.outcome, r.parseError, r.cfgBeyond, before, expect, after, ob, oa) THEN <<>>
+     (* a margin / indent beyond the width limit: format() panics before any file is opened *)
+     ELSE IF "FormatWidthPanics" \in Devs /\ r.outcome = "crash" /\ r.cfgBeyond /\ r.panicWidth /\ after = before /\ oa = ob
+          THEN <<V(r.id, "deviation", "FormatWidthPanics", "mos format panics (Formatting argument out of range) on a margin or indent beyond 65535")>>
+     (* started in a subdirectory: the entry is looked up there; the project itself is never touched *)
+     ELSE IF "FormatEntryFromCwd" \in Devs /\ r.cwd = "sub" /\ ~r.cfgBeyond /\ after = before /\ r.outcome # "crash"
+             /\ (r.decoy \/ (r.outcome = "error" /\ oa = ob))
+          THEN <<V(r.id, "deviation", "FormatEntryFromCwd", IF r.decoy THEN "started in a subdirectory, mos format rewrites that directory's main.asm instead of the project"
+                                                                     ELSE "started in a subdirectory, mos format cannot find the entry")>>
+     ELSE <<V(r.id, "violation", "",
+              IF r.outcome = "crash" THEN "mos format crashed"
+              ELSE IF oa # ob THEN "mos format changed a file that is not part of the project"
+              ELSE IF r.parseError THEN "mos format changed a file (or reported success) although a file of the project has a parse error"
+              ELSE IF r.outcome = "error" THEN "mos format failed although the project has no parse error and the configuration is in range"
+              ELSE "mos format did not write exactly format(file) into every file of the project")>>
 
 Judge(r) == IF r.kind = "cmd" THEN (IF Prop = "C12" THEN CmdRows(r) ELSE <<>>)
             ELSE IF Prop = "C12" THEN C12Rows(r) ELSE C13Rows(r)
